@@ -5,7 +5,10 @@ from props import c17
 
 
 def run(run, tier, seed):
-    run.rule = ("relational: Lo.tla states the C18 relation: for every record, before+REF+after (either strand) occurs in exactly "
+    run.rule = ("design: MC_LoIndel - LoGraph's traversal (multigraph, compaction, depth-first path enumeration, grouping) on every "
+                "deletion / tandem duplication of 1-2 (thorough 3) bases at every position of two 24-base ancestors x carrier sets x an "
+                "optional substitution 2 or k bases further; the indel and SNP groups of each scenario are replayed into the hooked "
+                "`ska lo` (hook lo.groups). relational: Lo.tla states the C18 relation: for every record, before+REF+after (either strand) occurs in exactly "
                 "the samples genotyped 0 and before+ALT+after in exactly those genotyped 1 (0/1 = both, '.' = neither); every record "
                 "maps injectively to a planted indel (same length, allele a rotation of the planted bases on either strand, same "
                 "long-form samples). traces: ancestors with unique (k-1)-mers, 1-3 planted insertions/deletions of 1-10 bases >= 4k "
@@ -13,9 +16,13 @@ def run(run, tier, seed):
                 "precondition holds, an indel with a proper non-empty carrier set; distinct by scenario")
     run.assumptions = ["'at least 90% of the planted indels are reported' is read as an aggregate over the run",
                        "precondition: every derived sample has unique (k-1)-mers on both strands (coordinates shift behind an indel)",
-                       "no implementation-shaped model of the graph algorithm"]
+                       "graph construction, extremities, compaction and path enumeration are modelled (LoGraph.tla) and replayed; indel de-replication and "
+                       "allele extraction (process_indels.rs) are not: the relation is evaluated on recorded runs"]
     d = vlib.design_check("MC_AlignSnp", "MC_AlignSnp_small", "c18-rel", workers=8, timeout=900)
     run.add_design(d)
+    # the traversal stage on the indel universe: LoGraph!BuiltGroups on every deletion / tandem duplication (optionally with a
+    # substitution next to it) of MC_LoIndel; the hooked `ska lo` must build the same SNP groups and indel groups
+    c17.replay_entries(run, tier, seed, module="MC_LoIndel", tag="c18-graph", nq=300, nt=20000)
     events = lodrv.indel_events(run, tier, seed + 18, "c18")
     c17.finish(run, events, "c18", tier)
     # "at least 90% reported" is a statement about a rate; a run observes a finite sample of it. To keep sampling
